@@ -42,6 +42,43 @@ Theorem install_int_post : forall ed fs im w w',
 Proof. exact install_int_post_proof. Qed.
 Print Assumptions install_int_post.
 
+(* ... and of the install(1) fallback, with the behaviour of install(1) as the ONLY assumption: when it
+   exits 0 and DEST is not a directory, the sources (copies of one file) are at DEST, DEST has not
+   become a directory and nothing else was touched *)
+Theorem install_fallback_post : forall ed src (ext_effect : list str -> image -> image),
+  (forall words ss d i s cid,
+     rel d -> In s ss -> (forall s', In s' ss -> s' = s) -> assoc s src = Some (SFile cid) ->
+     not_dir i (comps d) ->
+     exists m, img_get (comps d) (ext_effect ([E "install"] ++ words ++ ss ++ [abs_of ed d]) i) = Some (NFile cid m)) ->
+  (forall words ss d i,
+     rel d -> not_dir i (comps d) ->
+     not_dir (ext_effect ([E "install"] ++ words ++ ss ++ [abs_of ed d]) i) (comps d)) ->
+  (forall words ss d i k,
+     rel d -> k <> comps d -> not_dir i (comps d) ->
+     img_get k (ext_effect ([E "install"] ++ words ++ ss ++ [abs_of ed d]) i) = img_get k i) ->
+  forall fs words w w',
+  w_src w = src ->
+  (forall s d, In (s, d) fs -> rel d) ->
+  (forall s d, In (s, d) fs -> not_dir (w_img w) (comps d)) ->
+  (forall s1 d1 s2 d2, In (s1, d1) fs -> In (s2, d2) fs -> comps d1 = comps d2 -> s1 = s2) ->
+  install_files ed ext_effect fs (IFallback words) w = (None, w') ->
+  forall s d cid, In (s, d) fs -> assoc s src = Some (SFile cid) ->
+                  exists m, img_get (comps d) (w_img w') = Some (NFile cid m).
+Proof. exact install_fallback_post_proof. Qed.
+Print Assumptions install_fallback_post.
+
+(* the assumption is satisfiable (an install(1) that never treats DEST as a directory) *)
+Theorem install_fallback_post_satisfiable : forall ed src fs words w w',
+  w_src w = src ->
+  (forall s d, In (s, d) fs -> rel d) ->
+  (forall s d, In (s, d) fs -> not_dir (w_img w) (comps d)) ->
+  (forall s1 d1 s2 d2, In (s1, d1) fs -> In (s2, d2) fs -> comps d1 = comps d2 -> s1 = s2) ->
+  install_files ed (ideal_effect ed src) fs (IFallback words) w = (None, w') ->
+  forall s d cid, In (s, d) fs -> assoc s src = Some (SFile cid) ->
+                  exists m, img_get (comps d) (w_img w') = Some (NFile cid m).
+Proof. exact install_fallback_post_ideal. Qed.
+Print Assumptions install_fallback_post_satisfiable.
+
 (* nonfatal: code and message come back; otherwise the same line is written and the build fails *)
 Theorem nonfatal_returns_code : forall (W : Type) (body : list str -> list str -> W -> hres * W) (cwd_ok : str -> bool)
     l1 l2 l3 l4 l5 tail (w : W) options code msg w1,
